@@ -820,7 +820,7 @@ func c10Tags(in c10Input, obs c10Obs) []string {
 }
 
 func runC10(o Opts) {
-	n := 420
+	n := 1500
 	if o.Tier == "thorough" {
 		n = 6000
 	}
